@@ -487,13 +487,13 @@ class BaseParser:
             if name in provided:
                 # another accepted name of a field already taken from the input:
                 # compare the input values (not the parsed one), before anything else, as field_first_parse does
-                if not options.ignore_alias_conflicts:
-                    if provided[name] != value and name not in conflicted:
+                if not options.ignore_alias_conflicts and provided[name] != value:
+                    if name not in conflicted:
                         context.handle_error(exc.AliasConflictError(item=name, value=value))
                         conflicted.add(name)
                     continue
-                # conflicts are ignored: the value given under the field's foremost name wins,
-                # whatever the order of the input keys (as in field_first_parse)
+                # equal values (True and 1), or conflicts are ignored: the value given under the field's
+                # foremost name stands, whatever the order of the input keys (as in field_first_parse)
                 if rank > ranks[name]:
                     continue
             provided[name] = value
